@@ -20,7 +20,7 @@ fn nh_addr(i: u64) -> IpAddr {
 }
 
 #[derive(Clone, Debug, PartialEq, Eq, PartialOrd, Ord)]
-struct Key {
+pub(crate) struct Key {
     llgr: bool,
     lp: std::cmp::Reverse<u32>,
     hops: usize,
@@ -28,6 +28,10 @@ struct Key {
     not_ebgp: bool,
     stale: bool,
     cluster: usize,
+}
+
+pub(crate) fn tie_key(p: &table::Path) -> Key {
+    key_of(p)
 }
 
 fn key_of(p: &table::Path) -> Key {
@@ -121,7 +125,7 @@ impl Check for KernelSync {
             rule: "1-3 source peers (eBGP / iBGP / RR client, optional add-path towards the DUT, optional GR so that stale marking and purge happen) announcing 2-5 prefixes over 3 shared next hops with attributes from small colliding domains (so that paths tie before the router-id step); ops announce / replace / withdraw (optionally without quiescence before the next op = inside a burst), peer drop and reconnect, next-hop reachability reports injected through the kernel event channel (optionally inside a burst), waits across the GR restart timer; 1-3 shards. At quiescence: the fold of Apply requests per prefix equals the next-hop set of the RIB's best path and the paths tied with it on every step before router-id (reference comparator), empty when there is none; register - unregister per address equals the number of peer-learned RIB entries using that next hop and never goes negative; no eligible best path uses a next hop reported unreachable. non-trivial = at least two paths tied or a next-hop report arrived while routes existed".into(),
             components_real: vec!["TableManager::{insert_route,remove_route,unregister_peer,drop_stale_families,update_nexthop_validity}, TableShard::distribute_update, nht_register".into(), "table::Table::{insert,remove,drop,restale,drop_stale,update_nexthop_validity}, NlriChange::ecmp_paths".into(), "the kernel-event arm of the dispatch loop; real sessions".into()],
             components_stubbed: vec!["netlink: kernel::run_service_loop and its own refcount map are not run; requests are observed at the KernelHandle channel (H7 hook)".into(), "TCP, clock, peers".into()],
-            assumptions: vec!["VRF tables / VPN import targets and import-policy next-hop rewrites with soft reset are not generated yet".into()],
+            assumptions: vec!["VRF tables and VPN import targets are the subject of the second scenario (vrf-fib); import-policy next-hop rewrites with soft reset are not generated".into()],
             bounds: "<=50 ops, <=3 sources, <=5 prefixes, 3 next hops, IPv4 unicast".into(),
         }
     }
